@@ -51,6 +51,27 @@ Definition check_case (o : obs) (resp : json) : string :=
    | Err e => "G:E:" ++ e
    end)%string.
 
+(* one term per reported request: validator verdict, generator comparison, CSV row *)
+Definition check_all (o : obs) (resp : json) (eqp : eqpt) (margin pdbm : Q) : string :=
+  (check_case o resp ++ "@@" ++
+   match csv_row eqp margin pdbm resp with
+   | Ok row => join tab (map (fun p : string * cell => (fst p ++ "=" ++ match snd p with
+                                                                       | CEmpty => "E" | CStr s => "S" ++ s
+                                                                       | CNum q => "N" ++ qs q | CBool b => "B" ++ bs b end)) row)
+   | Err e => "E:" ++ e
+   end)%string.
+
+(* macros for generated literals: they expand to exactly the JSON term the generic emitter would write; the harness
+   uses them only after checking that the real object has exactly these keys in this order *)
+Definition JH (i : Z) (a b : string) : json := item_obj i (IHop a b).
+Definition JL (i : Z) (l : list (Z * Z)) : json := item_obj i (ILabel l).
+Definition JT (i : Z) (ty : string) (m : option string) : json := item_obj i (ITsp ty m).
+Definition JM (name : string) (v : json) : json :=
+  JObj [("metric-type"%string, JStr name); ("accumulative-value"%string, v)].
+Definition QA (den : positive) (l : list Z) : list Q := map (fun n => n # den) l.
+Definition FA (den : positive) (l : list (option Z)) : list xq :=
+  map (fun o => match o with Some n => Fin (n # den) | None => PInf end) l.
+
 (* the implementation raised while building the response: what does the model do? *)
 Definition check_raise (o : obs) : string :=
   match pathresult o with
